@@ -103,6 +103,9 @@ def nodes_of(top):
 
 
 def flat(x):
+    if not hasattr(x, 'sym'):
+        # a plain tensor (the library answers a query it considers empty with torch.zeros): constants
+        return [lift(Fraction(float(v))) for v in x.reshape(-1).tolist()]
     return list(x.sym.reshape(-1))
 
 
